@@ -130,7 +130,7 @@ func (e *Enum) RejWord(n uint32) (uint32, bool) {
 	if len(c.rej) >= 3 {
 		return c.rej[e.Rng.Intn(len(c.rej))], true
 	}
-	for _, w := range []uint32{0xFFFFFFFF, 0xFFFFFFFE, 0xFFFFFFFF - uint32(e.Rng.Intn(3)), 0xFFFFFFF0, 0x80000000} {
+	for _, w := range []uint32{0xFFFFFFFF, 0xFFFFFFFE, 0xFFFFFFFF - uint32(e.Rng.Intn(3)), 0xFFFFFFF0, 0x80000000, 0, 1, 2, n, n + 1, ^uint32(0) >> 1} {
 		// a rejected word makes the draw consume a second word
 		_, used, ok := e.TryDraw(n, []uint32{w, 0})
 		if ok && used == 2 {
